@@ -4,6 +4,7 @@ correspondence slices run, which oracle decides a concrete violation, and the fa
 search used when a proof obligation or the correspondence breaks.
 """
 import json
+import math
 import os
 import sys
 import time
@@ -484,3 +485,203 @@ def _find_base_grid(res, rng, tier):
     res.count("find_base_accepted", acc)
     res.count("find_base_rejected", rej)
     res.slices["find_base"] = {"grid_points": n, "accepted": acc, "rejected": rej, "wall_s": round(time.time() - t0, 1)}
+
+
+# =============================================================================== C15 C16 C20
+
+
+def _simple(pid, tier, seed, slice_fn, rule, level="proof", assumptions=None):
+    res = Result(pid, tier, seed)
+    res.rule = rule
+    lean = lean_check(pid)
+    rng = rng_for(seed, pid)
+    slice_fn(res, rng, tier)
+    _only(res, pid)
+
+    def search():
+        r2 = Result(pid, tier, seed)
+        slice_fn(r2, rng_for(seed, pid + "/search"), "thorough")
+        _only(r2, pid)
+        return r2.oracle_failures
+
+    return finish(res, lean, level, search, _sig, assumptions=assumptions or [])
+
+
+def check_C15(tier, seed):
+    import slice_misc
+
+    return _simple("C15", tier, seed, slice_misc.merge_refuse,
+                   "EVERY ordered pair from a grid per family (count-min: 15 configurations = each differing from a base in exactly one of width/depth/max_count/num_reserved, for all three counter "
+                   "types; HyperLogLog: 8 (p, seed) incl. seeds 2^32, 2^63, 2^64-1; heavy hitters: 7 incl. differing phi), both operands non-empty: exception class vs the Lean mergeVerdict, "
+                   "byte snapshot of every array of both operands before/after. Exhaustive over the grid; each ordered pair is one distinct case.",
+                   assumptions=["cross-family merges (e.g. HyperLogLog with count-min) are outside the property"])
+
+
+def check_C20(tier, seed):
+    import slice_misc
+
+    return _simple("C20", tier, seed, slice_misc.truncate,
+                   "files written by save() for the five classes and several shapes; EVERY prefix length 0..len through the class loader and (count-min) the module-level load(): raise vs return, "
+                   "and the exception class compared with the Lean npLoad model prefix by prefix (files ≤ 4000 bytes); `uniqueSig` (the end-record signature occurs exactly once) is evaluated by "
+                   "the model on every file. Exhaustive over all crash points of each file.",
+                   assumptions=["np.load / zipfile._EndRecData are modelled from the installed NumPy 2.x / CPython 3.12 sources, not verified",
+                                "table contents crafted to embed the bytes 50 4B 05 06 are excluded by the uniqueSig hypothesis"])
+
+
+def check_C16(tier, seed):
+    import slice_misc
+
+    return _simple("C16", tier, seed, slice_misc.shm_slice,
+                   "all five classes, shapes with odd byte sizes (width, depth ∈ {1,3,5,7,11}, max_key_len ∈ {1,3,5,7}): the same random add sequence on an in-memory sketch and interleaved between "
+                   "a shared-memory owner and 1-2 attached views (attach_shared_memory); every view's full state compared with the in-memory sketch after every step; real array offsets inside the "
+                   "block (owner and view) compared with the Lean layouts; dropping a view leaves block and contents intact, dropping the owner removes the /dev/shm entry.",
+                   assumptions=["mapping coherence between views and unlink semantics are the operating system's (modelled, not proved)"])
+
+
+def check_C10(tier, seed):
+    import slice_misc
+
+    return _simple("C10", tier, seed, slice_misc.persist,
+                   "all five classes with random shapes (incl. width/depth 1), non-default max_count/num_reserved/phi (incl. default phi at width 1 and phi=1.0)/seeds ≥ 2^63, states from random adds, "
+                   "load with shared_memory False/True: class, every public attribute (type and repr), all tables, n_added/n_records, queries compared with the original; module-level load() "
+                   "dispatch and TypeError from the other count-min loaders; continued adds under the same placed draws; merge with the original; a second save/load generation; plus a grid of "
+                   "valid/invalid constructor arguments compared with the model's ctorValid. Distinct by (class, arguments, case number).",
+                   assumptions=["NumPy container I/O (np.savez / np.load) is modelled as storing and returning members unchanged",
+                                "_find_base acceptance is a parameter (BaseOK) of the persistence model: a deterministic function of its arguments"])
+
+
+def check_C12(tier, seed):
+    import slice_cms
+    import slice_hh
+    import slice_hll
+    import slice_log
+    import slice_misc
+
+    pid = "C12"
+    res = Result(pid, tier, seed)
+    res.rule = ("real vs real: each entry point (update(list), update(dict), add(key, v) with v up to 10^4, add_ngram with n ∈ {1,2,3,len-1,len,len+1,len+2,256,2^32+1}, update_ngram, "
+                "sketch[key]) on one real sketch vs the loop of single adds on another, all five classes, widths 1-5 so that order-dependent collisions occur, log draws placed identically; "
+                "real vs model: the batch/dict/ngram ops of the count-min, heavy-hitter, HyperLogLog and log slices, where the Lean model executes the loop of single adds. "
+                "Distinct by (class, entry point, input, shape).")
+    lean = lean_check(pid)
+    rng = rng_for(seed, pid)
+    slice_misc.entry_real(res, rng, tier)
+    slice_cms.run_slice(res, rng, tier, {pid}, {"exact", "entry"}, 80 if tier == QUICK else 1500, 5 if tier == QUICK else 90)
+    slice_hh.run_slice(res, rng, tier, [pid], 60 if tier == QUICK else 1000, 5 if tier == QUICK else 90)
+    slice_hll.run_slice(res, rng, tier, 60 if tier == QUICK else 1000, 5 if tier == QUICK else 90)
+    slice_log.log_history(res, rng, tier, {pid}, 60 if tier == QUICK else 1000, 4 if tier == QUICK else 60)
+    _only(res, pid)
+
+    def search():
+        r2 = Result(pid, tier, seed)
+        slice_misc.entry_real(r2, rng_for(seed, pid + "/search"), "thorough")
+        _only(r2, pid)
+        return r2.oracle_failures
+
+    return finish(res, lean, "proof", search, _sig,
+                  assumptions=["add(key, v) for v > 2^32-1 is capped by the API (documented), so 'v single adds' is claimed for v ≤ 2^32-1",
+                               "ngram size n ≥ 1"])
+
+
+def check_C17(tier, seed):
+    import slice_misc
+
+    return _simple("C17", tier, seed, slice_misc.hll_query,
+                   "p ∈ 7..16 (quick: 6 of them); register arrays: empty, all-maximum, single zero register, real-hash-like arrays at loads 0.01..100 keys/register, arrays placing the linear-counting "
+                   "value on each side of threshold[p], uniform small ranks around the 5m boundary; real query() vs an independent Python rendering of the documented estimator (1e-9, cases "
+                   "within 1e-6 of a branch boundary excluded) and vs the Lean Float mirror over the tables regenerated from the source; branch taken is counted. Distinct by (p, array label, branch).",
+                   level="proof",
+                   assumptions=["float evaluation is compared with tolerance 1e-9, nothing is proved about IEEE arithmetic: this property is translation-validation in nature",
+                                "the theorems are about the generated tables (decide +kernel) and the branch/interpolation structure over an ordered field"])
+
+
+def check_C07(tier, seed):
+    import slice_hll
+    import slice_misc
+
+    pid = "C07"
+    res = Result(pid, tier, seed)
+    res.rule = ("deterministic clauses: empty sketch → exactly 0.0; linear-counting value never above that of n occupied registers (hll_query arrays, p 7..16); registers via the hll slice. "
+                "Envelope clause (NOT a theorem): seeded Monte-Carlo refutation search on the real code — n on a log grid 0..40·2^p incl. threshold[p] and 5·2^p, several seeds per cell, "
+                "relative error ≤ k·1.04/√m with k = 7 (normal-tail false-alarm bound < 1e-9 per run incl. the union over cells).")
+    lean = lean_check(pid)
+    rng = rng_for(seed, pid)
+    slice_misc.hll_query(res, rng, tier)
+    slice_hll.run_slice(res, rng, tier, 60 if tier == QUICK else 600, 5 if tier == QUICK else 60)
+    _hll_envelope(res, rng, tier)
+    _only(res, pid)
+
+    def search():
+        r2 = Result(pid, tier, seed)
+        _hll_envelope(r2, rng_for(seed, pid + "/search"), "thorough")
+        slice_misc.hll_query(r2, rng_for(seed, pid + "/search2"), "thorough")
+        _only(r2, pid)
+        return r2.oracle_failures
+
+    return finish(res, lean, "proof", search, _sig,
+                  assumptions=["THE ERROR ENVELOPE IS STATISTICAL AND NOT PROVED: it assumes FastHash behaves like a random function and relies on the empirical HLL++ bias tables; "
+                               "the Monte-Carlo test is a refutation search only",
+                               "proved: empty ⇒ 0, at most n occupied registers for n distinct keys, monotonicity of the linear-counting value"])
+
+
+def _hll_envelope(res, rng, tier):
+    from real import np, sk
+
+    s = sk()
+    t0 = time.time()
+    ps = [7, 10, 14] if tier == QUICK else [7, 8, 9, 10, 11, 12, 13, 14, 15, 16]
+    cells = 0
+    for p in ps:
+        m = 1 << p
+        from sketchnu.hll_constants import sub_algorithm_threshold
+        thr = int(sub_algorithm_threshold[p - 7])
+        grid = sorted(set([1, 2, m // 10 or 1, m // 2, m, thr, int(2.5 * m), 5 * m] + ([10 * m, 40 * m] if (tier != QUICK and p <= 13) else [])))
+        for n in grid:
+            for rep in range(1 if tier == QUICK else 3):
+                seed = rng.choice([0, rng.randrange(2**64)])
+                h = s.HyperLogLog(p, seed)
+                base = rng.randrange(2**40)
+                klen = rng.choice([4, 8, 13])
+                h.update([(base + i).to_bytes(8, "little")[:klen] + b"\x01" * (klen - min(klen, 8)) if klen <= 8 else (base + i).to_bytes(8, "little") + b"pad!!" for i in range(n)])
+                est = float(h.query())
+                rel = abs(est - n) / n
+                k = 7.0
+                bound = k * 1.04 / math.sqrt(m)
+                small = n <= 5  # for tiny n the estimate is exact-ish: |est - n| < 1
+                cells += 1
+                res.evaluations += 1
+                if (small and abs(est - n) > 1.0) or (not small and rel > bound):
+                    res.oracle_failures.append({"pid": "C07", "what": f"C07 envelope (search): p={p} seed={seed} n={n} distinct keys: estimate {est:.1f}, relative error {rel:.4f} > {bound:.4f}",
+                                                "p": p, "n": n, "seed": seed, "base": base, "klen": klen})
+        res.nontrivial(["hll_envelope", p, len(grid)])
+    res.count("envelope_cells", cells)
+    res.slices["hll_envelope"] = {"cells": cells, "wall_s": round(time.time() - t0, 1)}
+
+
+def check_C14(tier, seed):
+    import slice_misc
+
+    pid = "C14"
+    res = Result(pid, tier, seed)
+    res.rule = ("cols: probe-observed column per row for every kernel family (linear/log8/log16/heavy hitters), widths 1..2^20+7, depths 1..8, NUL/high-byte keys vs the Lean "
+                "Impl.fasthash64(key, row) % width and an independent Python reference; searches (NOT proofs): χ² uniformity of each row and of the joint distribution of every pair of rows "
+                "over 6000-20000 keys at width 16 (tail < 1e-9), and Zipf streams of 3000-5000 keys at widths 32-128, depth 8 against exp(-depth).")
+    lean = lean_check(pid)
+    rng = rng_for(seed, pid)
+    slice_misc.cols_slice(res, rng, tier)
+    slice_misc.row_independence(res, rng, tier)
+    slice_misc.zipf_bound(res, rng, tier)
+    _only(res, pid)
+
+    def search():
+        r2 = Result(pid, tier, seed)
+        g = rng_for(seed, pid + "/search")
+        slice_misc.cols_slice(r2, g, "thorough")
+        slice_misc.row_independence(r2, g, "thorough")
+        slice_misc.zipf_bound(r2, g, "thorough")
+        _only(r2, pid)
+        return r2.oracle_failures
+
+    return finish(res, lean, "proof", search, _sig,
+                  assumptions=["THAT FASTHASH WITH SEEDS 0..d-1 BEHAVES LIKE INDEPENDENT UNIFORM HASH FUNCTIONS IS AN ASSUMPTION (statistical; searched, not proved)",
+                               "proved: the ideal-hash counting bound C14_ideal ((N-w_x)/(W·T))^d, its transfer through C01's upper bound; checked exactly: column = fasthash64(key,row) % width"])
